@@ -81,7 +81,7 @@ def run(ctx):
     items = [dict(gen="corpus", count=0, modes=["plain", "spacetime", "metrics"]),
              dict(gen="g1", count=30 * k, modes=["plain", "spacetime"]), dict(gen="g2", count=40 * k, modes=["plain", "spacetime"]),
              dict(gen="g3", count=30 * k, modes=["plain", "spacetime"]), dict(gen="g4", count=60 * k, modes=["plain"]),
-             dict(gen="g4b", count=30 * k, modes=["plain"]), dict(gen="g5", count=15 * k, modes=["plain"])]
+             dict(gen="g4b", count=30 * k, modes=["plain"]), dict(gen="g4c", count=20 * k, modes=["plain"]), dict(gen="g5", count=15 * k, modes=["plain"])]
     if c06.has_g7():
         items.append(dict(gen="g7", count=60 * k, modes=["metrics"]))
     recs = pool.collect(ctx, items)
